@@ -89,7 +89,7 @@ func findBranch(o *StepObs, name int) *BranchObs {
 }
 
 func viewOf(r *Real, ref *refState, obs *StepObs, nvals int) *View {
-	v := &View{Tips: map[int]int{}, Live: map[int][]int{}, Vecs: map[int][]int{}, NCommits: len(r.Commits), NObjs: r.NextObj - 1,
+	v := &View{Tips: map[int]int{}, Live: map[int][]int{}, Vecs: map[int][]int{}, Gone: map[int]bool{}, NCommits: len(r.Commits), NObjs: r.NextObj - 1,
 		ObjsAt: ref.objsAt, Parent: r.Parent, NVals: nvals, LastRevert: ref.lastRevert}
 	v.Branches = append(v.Branches, r.Names...)
 	for _, b := range r.Names {
@@ -105,6 +105,9 @@ func viewOf(r *Real, ref *refState, obs *StepObs, nvals int) *View {
 			for _, o := range b.Objs {
 				if o.Vec {
 					v.Vecs[b.Name] = append(v.Vecs[b.Name], o.ID)
+				}
+				if o.Gone {
+					v.Gone[b.Name] = true
 				}
 			}
 		}
@@ -128,6 +131,7 @@ func RunHistory(h *History, prof *Profile, rng *rand.Rand, opt Options) *Outcome
 		return out
 	}
 	defer r.Close()
+	r.ColdCommits = opt.Commits
 	ref := &refState{expected: map[int][]int{0: nil}, objsAt: map[int][]int{}, scanAt: map[int][]int{}, statAt: map[int]string{}, revertedAt: map[int]int{}}
 	stop := false
 	seenKey := map[string]bool{}
@@ -146,17 +150,30 @@ func RunHistory(h *History, prof *Profile, rng *rand.Rand, opt Options) *Outcome
 	var prev *StepObs
 	nops := len(h.Ops)
 	if prof != nil {
-		nops = 2 + rng.Intn(prof.MaxOps-1)
+		if prof.Script != nil {
+			nops = len(prof.Script)
+		} else {
+			nops = 2 + rng.Intn(prof.MaxOps-1)
+		}
 		h.Ops = nil
 	}
-	for step := 0; step < nops; step++ {
+	step := -1
+	for i := 0; i < nops; i++ {
 		var op Op
-		if prof != nil {
+		if prof != nil && prof.Script != nil {
+			var ok bool
+			op, ok = resolveSym(prof.Script[i], viewOf(r, ref, prev, len(t.Vals)))
+			if !ok || (prof.Guarded && op.Kind == "merge" && viewOf(r, ref, prev, len(t.Vals)).CommonDelete(op.Child, op.Branch)) {
+				continue
+			}
+			h.Ops = append(h.Ops, op)
+		} else if prof != nil {
 			op = prof.Next(rng, h.Cfg, viewOf(r, ref, prev, len(t.Vals)))
 			h.Ops = append(h.Ops, op)
 		} else {
-			op = h.Ops[step]
+			op = h.Ops[i]
 		}
+		step++
 		out.Stats["op:"+op.Kind]++
 		// delete-where: truth set by the plain runtime over the expected contents
 		var dels []int
